@@ -31,6 +31,9 @@ func runC06(r *engine.Run) {
 	r.Rule("DOM-txreset", "Commit hands the pending writes to the block cache and then empties the transaction's pending map: every return of TransactionCache.Commit is dominated by a store of a new map into the field (or clear / delete of every iterated key) that comes after the hand-over loop. Entries left behind keep answering as own uncommitted writes and are pushed again by the next Commit")
 	r.Rule("DOM-commitall", "inside StateCache.commit's loop over the block's pending map, the next iteration is not reachable without adding the entry to the key's versions map: no write or tombstone of the block is skipped")
 	r.Rule("LOCK-commit", "see C08: every write into the key->versions map, a per-key versions map or the block-link map that is reachable from StateCache.commit happens with StateCache.lock held (two committers must not create a key's versions map side by side)")
+	r.Rule("WHO-versions", "a per-key versions map is only read or added to (Get, Peek, Add, ContainsOrAdd, PeekOrAdd, Contains, Len, Keys); Purge, Remove and the like are never called on one: versions leave by capacity eviction only, so the lock-free ancestor walk's memo can never become the newest entry of a map that was just emptied")
+	r.Rule("ORDER-commitclear", "in StateCache.commit no versions-map Add is reachable after the store that replaces the block's pending map: the pending writes are dropped only after all of them were published")
+	r.Rule("WHO-globalcache", "package statecache keeps no cache instance (StateCache, BlockCache, TransactionCache, QueryBlockCache) in a package-level variable: caches are per block / per transaction objects")
 	r.NotDec = append(r.NotDec,
 		"hit ratio after LRU eviction (capacity arithmetic)", "equality with the block-tree oracle for every history")
 	whoReadOnly(r, "WHO-readonly")
@@ -51,6 +54,9 @@ func runC06(r *engine.Run) {
 		orderPublish(r, commit)
 	}
 	lockCommitOnly(r, "LOCK-commit")
+	whoVersions(r, "WHO-versions")
+	orderCommitClear(r, "ORDER-commitclear")
+	whoGlobalCache(r, "WHO-globalcache")
 }
 
 // lruCallOnField matches c = (*lru.Cache).<method>(load of <recvType>.<field>, ...).
@@ -74,13 +80,18 @@ func domNoMapSwap(r *engine.Run) {
 			r.Touch(f)
 			r.CallSites++
 			construct := o.next(fn(f) + "|StateCache.cache.Add")
-			keyArg := engine.ValKey(through(c.Call.Args[1]))
-			// provenance of the installed map
-			var news []*ssa.Call
+			// provenance of the installed map; a helper of the state cache that gets or
+			// creates the map is analysed in its own body, with the key argument mapped
+			// to the helper's parameter
+			type fresh struct {
+				call   *ssa.Call
+				in     *ssa.Function
+				keyKey string
+			}
+			var news []fresh
 			var bad []string
-			seen := map[ssa.Value]bool{}
-			var walk func(v ssa.Value)
-			walk = func(v ssa.Value) {
+			var walk func(g *ssa.Function, v ssa.Value, keyKey string, seen map[ssa.Value]bool, depth int)
+			walk = func(g *ssa.Function, v ssa.Value, keyKey string, seen map[ssa.Value]bool, depth int) {
 				v = through(v)
 				if seen[v] {
 					return
@@ -89,27 +100,51 @@ func domNoMapSwap(r *engine.Run) {
 				switch x := v.(type) {
 				case *ssa.Phi:
 					for _, e := range x.Edges {
-						walk(e)
+						walk(g, e, keyKey, seen, depth)
 					}
 				case *ssa.Extract:
 					if call, ok := x.Tuple.(*ssa.Call); ok {
 						if extCalleeIs(call, "hashicorp/golang-lru", "", "New") {
-							news = append(news, call)
+							news = append(news, fresh{call, g, keyKey})
 							return
 						}
 						if lruCallOnField(call, "Get", "cache") || lruCallOnField(call, "Peek", "cache") {
-							if engine.ValKey(through(call.Call.Args[1])) != keyArg {
+							if engine.ValKey(through(call.Call.Args[1])) != keyKey {
 								bad = append(bad, "map taken from another key's entry at "+r.P.Pos(call.Pos()))
 							}
 							return
 						}
 					}
 					bad = append(bad, "unrecognised provenance "+v.String())
+				case *ssa.Call:
+					h := x.Call.StaticCallee()
+					if h != nil && inRepo(h) && len(h.Blocks) > 0 && h != g && depth < 2 {
+						// the helper's parameter that receives the key
+						sub := ""
+						for i, a := range x.Call.Args {
+							if engine.ValKey(through(a)) == keyKey && i < len(h.Params) {
+								sub = engine.ValKey(h.Params[i])
+							}
+						}
+						if sub == "" {
+							bad = append(bad, "a helper that is not given the key: "+v.String())
+							return
+						}
+						for _, ret := range engine.Returns(h) {
+							for i := range ret.Results {
+								if isLRU(ret.Results[i].Type()) || isLRUPtr(ret.Results[i].Type()) {
+									walk(h, resultValue(ret, i), sub, map[ssa.Value]bool{}, depth+1)
+								}
+							}
+						}
+						return
+					}
+					bad = append(bad, "unrecognised provenance "+v.String())
 				default:
 					bad = append(bad, "unrecognised provenance "+v.String())
 				}
 			}
-			walk(c.Call.Args[2])
+			walk(f, c.Call.Args[2], engine.ValKey(through(c.Call.Args[1])), map[ssa.Value]bool{}, 0)
 			if len(bad) > 0 {
 				r.Undec(rule, construct, r.P.Pos(c.Pos()), bad[0])
 				return
@@ -119,14 +154,14 @@ func domNoMapSwap(r *engine.Run) {
 				// must be guarded by "<Get of the same key> not found"
 				guarded := false
 				detail := ""
-				atoms, full := engine.AtomsOn(f, nw.Block())
+				atoms, full := engine.AtomsOn(nw.in, nw.call.Block())
 				if full {
-					engine.Instrs(f, func(i2 ssa.Instruction) {
+					engine.Instrs(nw.in, func(i2 ssa.Instruction) {
 						g, ok := i2.(*ssa.Call)
 						if !ok || !(lruCallOnField(g, "Get", "cache") || lruCallOnField(g, "Peek", "cache")) {
 							return
 						}
-						if engine.ValKey(through(g.Call.Args[1])) != keyArg {
+						if engine.ValKey(through(g.Call.Args[1])) != nw.keyKey {
 							return
 						}
 						for _, ref := range engine.Referrers(g) {
@@ -142,7 +177,7 @@ func domNoMapSwap(r *engine.Run) {
 				}
 				if !guarded {
 					okAll = false
-					r.Fail(rule, construct+"|lru.New", r.P.Pos(nw.Pos()),
+					r.Fail(rule, construct+"|lru.New", r.P.Pos(nw.call.Pos()),
 						"a fresh versions map is allocated on a path where the key's existing map was found, and then installed: entries of other blocks for this key are discarded (stale ancestor value served later)"+detail)
 				}
 			}
@@ -152,6 +187,11 @@ func domNoMapSwap(r *engine.Run) {
 		})
 	}
 	r.Min(rule, 1)
+}
+
+func isLRUPtr(t types.Type) bool {
+	p, ok := t.Underlying().(*types.Pointer)
+	return ok && isLRU(p.Elem())
 }
 
 // valueNodeBase: for a value that is `X.data` (Field or load of FieldAddr)
@@ -381,8 +421,60 @@ func depWalk(r *engine.Run) {
 			r.CallSites++
 			r.Check(lk == labQueried, rule, o.next(fn(f)+"|memo-key"), r.P.Pos(c.Pos()),
 				"memoised under the queried hash", "the memoised entry is stored under a hash other than the queried one (a later lookup at that other block returns a descendant's or sibling's view)")
-			r.Check(lv == labEntry, rule, o.next(fn(f)+"|memo-value"), r.P.Pos(c.Pos()),
-				"memoised value is the entry found on the chain", "the memoised value is not the entry found on the ancestor chain")
+			whole := true
+			missing := ""
+			// a memo rebuilt as a struct literal carries every field of the found entry (the
+			// tombstone flag in particular): valueNode{data: v.data} turns a removal into a hit
+			mv := c.Call.Args[2]
+			if mi, ok := mv.(*ssa.MakeInterface); ok {
+				mv = mi.X
+			}
+			if ld, ok := mv.(*ssa.UnOp); ok {
+				if al, ok := ld.X.(*ssa.Alloc); ok {
+					if st, ok := al.Type().Underlying().(*types.Pointer).Elem().Underlying().(*types.Struct); ok {
+						set := map[string]bool{}
+						wholeStore, fieldStore := false, false
+						for _, ref := range engine.Referrers(al) {
+							if s2, ok := ref.(*ssa.Store); ok && s2.Addr == ssa.Value(al) {
+								wholeStore = true // a variable holding an entry, not a literal
+							}
+							if fa, ok := ref.(*ssa.FieldAddr); ok {
+								for _, r2 := range engine.Referrers(fa) {
+									if s2, ok := r2.(*ssa.Store); ok && s2.Addr == ssa.Value(fa) {
+										fieldStore = true
+									}
+								}
+							}
+						}
+						if wholeStore || !fieldStore {
+							set = nil
+						}
+						for _, ref := range engine.Referrers(al) {
+							if set == nil {
+								break
+							}
+							if fa, ok := ref.(*ssa.FieldAddr); ok {
+								for _, r2 := range engine.Referrers(fa) {
+									if s2, ok := r2.(*ssa.Store); ok && s2.Addr == ssa.Value(fa) {
+										// copied from the same field of an entry
+										if _, sf, ok := loadOfFieldOrField(s2.Val); ok && sf == st.Field(fa.Field).Name() {
+											set[sf] = true
+										}
+									}
+								}
+							}
+						}
+						for i := 0; set != nil && i < st.NumFields(); i++ {
+							if !set[st.Field(i).Name()] {
+								whole = false
+								missing = st.Field(i).Name()
+							}
+						}
+					}
+				}
+			}
+			r.Check(lv == labEntry && whole, rule, o.next(fn(f)+"|memo-value"), r.P.Pos(c.Pos()),
+				"memoised value is the entry found on the chain", "the memoised value is not the entry found on the ancestor chain (a rebuilt entry that lacks field "+missing+": a memo without the tombstone flag turns a removal into a hit on the placeholder value)")
 		}
 	})
 	r.Min(rule, 4)
@@ -736,6 +828,14 @@ func capAbsence(r *engine.Run, rule string) {
 					if extCalleeIs(x, "hashicorp/golang-lru", "", "New") || extCalleeIs(x, "hashicorp/golang-lru", "", "NewWithEvict") {
 						ctors = append(ctors, x)
 					}
+					// a helper of the state cache that gets or creates the map: what it returns
+					if g := x.Call.StaticCallee(); g != nil && inRepo(g) && len(g.Blocks) > 0 && g != f {
+						for _, ret := range engine.Returns(g) {
+							for i := range ret.Results {
+								walk(resultValue(ret, i))
+							}
+						}
+					}
 				case *ssa.UnOp:
 					// a local spilled to memory: follow its stores
 					if al, ok := x.X.(*ssa.Alloc); ok {
@@ -1035,4 +1135,138 @@ func domCommitAll(r *engine.Run, rule string) {
 	bypass := head != add.Block() && loopBypass(head, add.Block())
 	r.Check(!bypass, rule, fn(f)+"|publishes every entry", r.P.Pos(add.Pos()), "every iteration of commit's loop adds the entry to the key's versions map",
 		"commit can skip an entry of the block (a path to the next iteration bypasses the versions-map Add): a write or a tombstone of the block is not published, so lookups at the block and its descendants walk past it to an older value")
+}
+
+// whoVersions: a per-key versions map (block hash -> entry) only ever grows by
+// commit's Add and the lookup's add-if-absent memo; capacity eviction is its only
+// removal. Emptying it in place (Purge) or removing single versions while the
+// lock-free ancestor walk may be between reading an ancestor's entry and
+// memoising it leaves the walk's memo as the only entry: the newer writer's
+// version is gone and lookups at its descendants hit the ancestor's value.
+func whoVersions(r *engine.Run, rule string) {
+	n := 0
+	for _, f := range funcsOfPkg(r, pkgSC) {
+		if len(f.Blocks) == 0 {
+			continue
+		}
+		o := ord{}
+		engine.Instrs(f, func(in ssa.Instruction) {
+			c, ok := in.(*ssa.Call)
+			if !ok {
+				return
+			}
+			sc := c.Call.StaticCallee()
+			if sc == nil || sc.Signature.Recv() == nil || !isLRUPtr(sc.Signature.Recv().Type()) || len(c.Call.Args) == 0 {
+				return
+			}
+			// the receiver is a map taken out of the key->versions map (or a new one), not a field of the state cache
+			recv := c.Call.Args[0]
+			if _, isField := loadOfFieldAny(recv); isField {
+				return
+			}
+			n++
+			switch sc.Name() {
+			case "Get", "Peek", "Add", "ContainsOrAdd", "PeekOrAdd", "Contains", "Len", "Keys":
+				r.OK(rule, o.next(fn(f)+"|versions."+sc.Name()), r.P.Pos(c.Pos()), "a versions map is only read or added to")
+			default:
+				r.Fail(rule, o.next(fn(f)+"|versions."+sc.Name()), r.P.Pos(c.Pos()), "a per-key versions map is modified with "+sc.Name()+": versions leave the map by capacity eviction only; emptying it (or removing versions) while the lock-free ancestor walk is between reading an ancestor's entry and memoising it leaves that memo as the newest entry, so lookups at descendants of the real writer return the ancestor's value")
+			}
+		})
+	}
+	if n < 3 {
+		r.Anchor(rule, fmt.Errorf("unresolved anchor: only %d operations on per-key versions maps found", n))
+	}
+}
+
+func loadOfFieldAny(v ssa.Value) (string, bool) {
+	_, f, ok := loadOfField(v)
+	return f, ok
+}
+
+// orderCommitClear: the block's pending map is what StateCache.commit publishes.
+// It is replaced by an empty one only after every entry was published: if the
+// map were emptied first and the publishing loop were interrupted (a value's
+// Clone panics; the caller recovers and commits again), the second commit finds
+// nothing pending, passes the already-committed test and links a block that
+// holds only part of its writes.
+func orderCommitClear(r *engine.Run, rule string) {
+	f := r.Fn(rule, pkgSC, "StateCache", "commit")
+	if f == nil {
+		return
+	}
+	var resets []*ssa.Store
+	var adds []*ssa.Call
+	engine.Instrs(f, func(in ssa.Instruction) {
+		switch x := in.(type) {
+		case *ssa.Store:
+			if fa, ok := x.Addr.(*ssa.FieldAddr); ok && fieldName(fa) == "BlockCache.cache" {
+				resets = append(resets, x)
+			}
+		case *ssa.Call:
+			if extCalleeIs(x, "hashicorp/golang-lru", "Cache", "Add") && !lruCallOnField(x, "Add", "cache") && !lruCallOnField(x, "Add", "hashCache") {
+				adds = append(adds, x)
+			}
+		}
+	})
+	if len(resets) == 0 || len(adds) == 0 {
+		r.Anchor(rule, fmt.Errorf("unresolved anchor: reset of the block's pending map (%d) / versions-map Add (%d) in %s", len(resets), len(adds), fn(f)))
+		return
+	}
+	bad := ""
+	for _, rs := range resets {
+		for _, a := range adds {
+			if engine.ReachableAfter(rs, a) {
+				bad = r.P.Pos(rs.Pos())
+			}
+		}
+	}
+	r.Check(bad == "", rule, fn(f)+"|pending map cleared last", r.P.Pos(f.Pos()), "no versions-map Add is reachable after the block's pending map was replaced",
+		"commit replaces the block's pending map ("+bad+") before its entries are published: if the publishing loop is interrupted (a Clone panics and the caller recovers), the writes are gone, a repeated Commit publishes nothing and links the block with only part of its writes")
+}
+
+// whoGlobalCache: the caches are per block / per transaction objects. A
+// package-level cache instance is shared by everything that uses it: empty
+// transaction caches handed out over one shared block cache leak each other's
+// committed writes.
+func whoGlobalCache(r *engine.Run, rule string) {
+	pk := r.P.SSAPkgs[engine.RepoMod+"/"+pkgSC]
+	if pk == nil {
+		r.Anchor(rule, fmt.Errorf("unresolved anchor: package %s", pkgSC))
+		return
+	}
+	bad := ""
+	n := 0
+	for name, m := range pk.Members {
+		g, ok := m.(*ssa.Global)
+		if !ok {
+			continue
+		}
+		n++
+		t := g.Type()
+		for i := 0; i < 3; i++ {
+			if p, ok := t.Underlying().(*types.Pointer); ok {
+				t = p.Elem()
+			}
+		}
+		if nm := namedOf(t); nm != nil {
+			if _, isCache := cacheTypes[nm.Obj().Name()]; isCache {
+				bad = name
+			}
+		}
+	}
+	r.Check(bad == "", rule, "core/statecache|no package-level cache", "core/statecache", fmt.Sprintf("none of the %d package-level variables is a cache instance", n),
+		"the package keeps a cache instance in a package-level variable ("+bad+"): every transaction or block cache built over it shares its contents, so a write committed through one shows up in lookups through another that never wrote it")
+}
+
+// loadOfFieldOrField: v reads field f of a struct (through a pointer or by value).
+func loadOfFieldOrField(v ssa.Value) (ssa.Value, string, bool) {
+	if b, f, ok := loadOfField(v); ok {
+		return b, f, true
+	}
+	if fv, ok := v.(*ssa.Field); ok {
+		if st, ok := fv.X.Type().Underlying().(*types.Struct); ok && fv.Field < st.NumFields() {
+			return fv.X, st.Field(fv.Field).Name(), true
+		}
+	}
+	return nil, "", false
 }
